@@ -20,6 +20,9 @@ struct Registrar {
     static sev::Registrar registrar_##name(#name, handler_##name);             \
     static void handler_##name(const sev::J &c, sev::J &r)
 
+// record a crash event for the current case and leave the process (exit status 3)
+void fatal_event(const char *why);
+
 // run f, return "" or the exception class name
 template <class F>
 std::string guarded(F f)
